@@ -58,18 +58,18 @@ func init() {
 
 // wlGen is the resolved shape of WLRecipe.Generate.
 type wlGen struct {
-	fn        *ssa.Function
-	recv      *ssa.Alloc
-	loops     []*core.Loop
-	capMap    *ssa.MakeMap
-	wordDraw  *ssa.Call
-	oneDraw   *ssa.Call
-	coinDraw  *ssa.Call
-	main      *core.Counted // assembly loop
-	tsPhi     *ssa.Phi
-	sepCall   *ssa.Call
-	appends   []*tokAppend
-	draws     []*ssa.Call
+	fn       *ssa.Function
+	recv     *ssa.Alloc
+	loops    []*core.Loop
+	capMap   *ssa.MakeMap
+	wordDraw *ssa.Call
+	oneDraw  *ssa.Call
+	coinDraw *ssa.Call
+	main     *core.Counted // assembly loop
+	tsPhi    *ssa.Phi
+	sepCall  *ssa.Call
+	appends  []*tokAppend
+	draws    []*ssa.Call
 }
 
 type tokAppend struct {
